@@ -323,3 +323,38 @@ pub fn set_emissions_ix(
         )
     }
 }
+
+
+/// valid adaptive-fee constants over the whole valid region (boundary biased); returns (fee tier index, constants)
+pub fn pick_adaptive_constants(rng: &mut crate::rng::Rng, spacing: u16, salt: u16) -> (u16, decode::AfConstants) {
+    let tier_index = 1024 + salt + if spacing == 1024 + salt { 7 } else { 0 };
+    let filter = *rng.pick(&[1u16, 2, 10, 30, 60, 600]);
+    let decay = match rng.below(4) {
+        0 => filter + 1,
+        1 => filter.saturating_add(60).max(filter + 1),
+        2 => 3600u16.max(filter + 1),
+        _ => filter.saturating_add(1 + rng.below(2000) as u16),
+    };
+    let divisors: Vec<u16> = (1..=spacing).filter(|d| spacing % d == 0).collect();
+    let group = if spacing >= 32768 { *rng.pick(&[1u16, 64, 128, 32768]) } else { *rng.pick(&divisors) };
+    let max_acc_cap = (u32::MAX as u64 / group as u64).min(u32::MAX as u64) as u32;
+    let max_acc = (*rng.pick(&[0u32, 10_000, 50_000, 350_000, 1_000_000, 88 * 3 * 10_000, u32::MAX])).min(max_acc_cap);
+    let cf = *rng.pick(&[0u32, 1, 100, 1_000, 4_000, 50_000, 99_999]);
+    let threshold = match rng.below(4) {
+        0 => 1,
+        1 => (88u32 * spacing as u32).min(u16::MAX as u32) as u16,
+        _ => (1 + rng.below((88u64 * spacing as u64).min(2000))) as u16,
+    };
+    (
+        tier_index,
+        decode::AfConstants {
+            filter_period: filter,
+            decay_period: decay,
+            reduction_factor: *rng.pick(&[0u16, 1, 5_000, 9_000, 9_999]),
+            adaptive_fee_control_factor: cf,
+            max_volatility_accumulator: max_acc,
+            tick_group_size: group,
+            major_swap_threshold_ticks: threshold.max(1),
+        },
+    )
+}
